@@ -253,6 +253,19 @@ def make_storage_case(rng, transient=False, overrides=None):
     toks = []
     nout = 0
     ST, LD = ("TSTORE", "TLOAD") if transient else ("SSTORE", "SLOAD")
+    if rng.random() < 0.3:
+        # an early, discarded read through a hard-coded constant keccak(slot) + d of an array whose hash has not been computed yet on this path
+        # (unrecognised at that moment: it reads the untouched scalar slot, 0); once the hash has been computed at run time, the very same
+        # constant must be recognised as an element of the array
+        big = rng.choice([0x100, 0x123, 0x1000])
+        d = rng.choice([1, 2, 3])
+        toks += [("push", (H(big) + d) & M, 32), LD, "POP"]
+        g.features.add("early-probe-of-unhashed-constant")
+        locs.append(("arr", big, ("const", d), 0))
+        locs.append(("arr", big, ("cd", 2), 0))
+        # the first real access computes the hash at run time; later ones may use the constant (const_ok consults g.hashed)
+        toks += g.hash1([big]) + ["POP"]
+        g.hashed.add((big,))
 
     def out(t):
         nonlocal nout
@@ -352,4 +365,44 @@ def make_transient_pair_case(rng, overrides=None):
     case = Case({0x1000: asm(a), B: asm(b)}, ncd=3, overrides=overrides or {}, label="transient-pair",
                 gen_features=sorted(g.features | {"transient-two-accounts"}), second_tx=(0x1000, 3) if rng.random() < 0.7 else None)
     case.locs = [loc, loc2]
+    return case
+
+
+def make_symbolic_transient_case(rng, overrides=None):
+    """svm.enableSymbolicStorage(this) makes *persistent* storage arbitrary; transient storage still starts empty in every transaction:
+    reads of unwritten transient locations give 0, written ones give the last write (only transient reads are observed)"""
+    import foundry
+    from artifacts import call_raw
+
+    g = LocGen(rng, layout=(overrides or {}).get("storage_layout", "solidity"))
+    locs = [g.logical() for _ in range(rng.randrange(2, 4))]
+    locs = [l for l in locs if l[0] in ("map", "map2", "arr", "scalar", "mapstruct")] or [("map", 1, ("cd", 0))]
+    if locs[0][0] == "map":
+        locs.append(("map", locs[0][1], g.keyref()))
+    toks = call_raw(foundry.SVM, bytes.fromhex("dc00ba4d") + (0x1000).to_bytes(32, "big"), ret=0x900, ret_size=0) + ["POP"]
+    nout = 0
+
+    def out(t):
+        nonlocal nout
+        o = 0x200 + 32 * nout
+        nout += 1
+        return t + [o, "MSTORE"]
+
+    for i in range(rng.randrange(2, 6)):
+        loc = rng.choice(locs)
+        if rng.random() < 0.5:
+            val = [0x1000 + 0x111 * i] if rng.random() < 0.5 else [4 + 32 * rng.randrange(3), "CALLDATALOAD", 0x77 + i, "ADD"]
+            toks += val + g.tokens(loc) + ["TSTORE"]
+            if rng.random() < 0.4:
+                toks += [0x55 + i] + g.tokens(loc) + ["SSTORE"]  # a persistent write at the same location must not show through
+        else:
+            toks += out(g.tokens(loc) + ["TLOAD"])
+    for loc in locs:
+        toks += out(g.tokens(loc) + ["TLOAD"])
+    toks += [32 * nout, 0x200, "RETURN"]
+    case = Case({0x1000: asm(toks)}, ncd=3, overrides=overrides or {}, label="symbolic-storage-transient", gen_features=sorted(g.features | {"enableSymbolicStorage"}))
+    case.foundry = True
+    case.default_tape = [0] * 4
+    case.locs = locs
+    case.slots = {0x1000: []}  # persistent storage is arbitrary here: not compared
     return case
